@@ -118,7 +118,8 @@ func (i *importedString) Equals(other Value) bool {
 func (i *importedString) StrictEquals(other Value) bool {
 	switch otherStr := other.(type) {
 	case asciiString:
-		if i.u != nil {
+		// (a string with a non-ASCII character never has the bytes of an ASCII one, scanned or not)
+		if i.scanned.Load() && i.u != nil {
 			return false
 		}
 		return i.s == string(otherStr)
